@@ -11,6 +11,15 @@ _ODE_NOTE = ("the strict C reader is trusted for the statement shapes it accepts
 _ODE_TECH = ("TLA+ spec OdeGen.tla model-checked with TLC over all small networks; TLC-chosen and random networks rendered by the real "
              "generator for dense/sparse/cusparse/odeint, read back with a strict C reader and validated event by event by Trace_OdeGen.tla")
 CHECKS = {
+    "C09": dict(level="model_checking", design_ref="DESIGN.md §4 C09, §11",
+        technique="TLA+ spec Index.tla (alias construction, (connectivity, name) order, artefact views) model-checked with TLC; networks over "
+                  "a pool of species with known attributes rendered; identifier tables of five artefacts read back and judged by "
+                  "Trace_Index.tla",
+        text="TLC checks AliasLegal / AliasInjective / Bijection / ViewsAgree for all small species sets of a hazard-rich universe; for "
+             "every rendered network the order must be the (connectivity, name) order with independently computed connectivity, and the "
+             "identifiers of the C macros, Python index constants, Python lists, configuration summary and Enzo table must be legal, "
+             "distinct, map onto 0..N-1 and equal the specification's alias of the intended attributes.",
+        note="species attributes are the intended ones of the pool; configuration summary read from NetworkConfiguration"),
     "C08": dict(level="model_checking", design_ref="DESIGN.md §4 C08, §11",
         technique="TLA+ spec SpeciesName.tla (the parser as a state machine over character sequences + the declarative composition of a "
                   "token sequence) model-checked with TLC; TLC-chosen, random, garbage and bundled names parsed by the real Species and "
